@@ -63,10 +63,10 @@ func c16Ops(u *nodelite.Universe, thorough bool) []c16Op {
 	}}
 	// A=[x,y]; E = the same content under another name (identical file under two manifests);
 	// P=[x] chunk-aligned prefix of A; D=[w,w] repeated chunk; B=[x,z] shares x with A.
-	ops = append(ops, up("A"), up("E"), up("P"), up("D"), cache("A"), cache("P"), cache("D"),
-		del("A"), del("E"), del("P"), del("D"), restart)
+	ops = append(ops, up("E"), up("P"), cache("A"), cache("P"), cache("D"),
+		del("A"), del("E"), del("P"), restart)
 	if thorough {
-		ops = append(ops, up("B"), cache("B"), cache("E"), del("B"), pin("A"), unpin("A"))
+		ops = append(ops, up("A"), up("D"), del("D"), up("B"), cache("B"), cache("E"), del("B"), pin("A"), unpin("A"))
 	}
 	return ops
 }
@@ -100,7 +100,7 @@ func TestVerifC16(t *testing.T) {
 		t.Fatalf("A and E must share the file entry and differ in the manifest")
 	}
 	thorough := mc.Thorough()
-	depth := mc.Pick(4, 5)
+	depth := 5
 	capacity := uint64(8)
 	ops := c16Ops(u, thorough)
 	var opNames []string
